@@ -58,7 +58,20 @@ def lint_text(text: str, where: str, file: str, line: int, hole_values: Optional
         if t.kind == "ident" and t.up == "OVER" and i + 1 < n and toks[i + 1].text == "(":
             j = sqlx.matching_paren(toks, i + 1)
             inner = toks[i + 2:j]
-            holes = [x for x in inner if x.kind == "hole"]
+            # a hole can stand for the ORDER BY the transpiler inserts - unless it is an element of the PARTITION BY column list
+            # (directly after `PARTITION BY` or after a comma inside that list): a column list cannot carry an ordering
+            holes = []
+            in_partition = False
+            for idx_, x in enumerate(inner):
+                if x.up == "PARTITION":
+                    in_partition = True
+                elif x.up in ("ORDER", "ROWS", "RANGE", "GROUPS"):
+                    in_partition = False
+                if x.kind == "hole":
+                    prev_ = inner[idx_ - 1] if idx_ > 0 else None
+                    if in_partition and prev_ is not None and (prev_.up == "BY" or prev_.text == ","):
+                        continue
+                    holes.append(x)
             ordered = _has_order_by(inner)
             framed = any(x.up in ("ROWS", "RANGE", "GROUPS") for x in inner)
             # function name: ident ( ... ) OVER   |  hole OVER
